@@ -466,6 +466,7 @@ def check(ctx):
         rep.cur_config = cfgname
         from . import common as _cm
         _cm.check_helpers(ctx, f, rep, 'C15-R0', {'serialize_member', 'backlog'})
+        _cm.check_state_fields(f, rep, 'C15-R0', ('updates',))
         from . import common as _common
         _common.check_frame(f, rep, 'C15-R0')
         _common.check_derives(f, rep, 'C15-R0')
